@@ -104,9 +104,11 @@ def fmt(a: Expr) -> str:
 class WordEval:
     """Translate an expression of the repository (`@`, `+`, `-`, conj/transpose, np.identity) into an Expr."""
 
-    def __init__(self, env: Dict[str, Expr], text_env: Optional[Dict[str, Expr]] = None):
+    def __init__(self, env: Dict[str, Expr], text_env: Optional[Dict[str, Expr]] = None, defs: Optional[Dict[str, ast.AST]] = None):
         self.env = env
         self.text_env = text_env or {}
+        self.defs = defs or {}      # locals with one definition: read through it when the name itself is not bound
+        self._open: set = set()
 
     def ev(self, e: ast.AST) -> Expr:
         txt = norm(e)
@@ -115,6 +117,12 @@ class WordEval:
         if isinstance(e, ast.Name):
             if e.id in self.env:
                 return self.env[e.id]
+            if e.id in self.defs and e.id not in self._open:
+                self._open.add(e.id)
+                try:
+                    return self.ev(self.defs[e.id])
+                finally:
+                    self._open.discard(e.id)
             raise Untranslatable(f"moments: free name `{e.id}`")
         if isinstance(e, ast.BinOp):
             if isinstance(e.op, ast.MatMult):
